@@ -191,6 +191,9 @@ class C10(Check):
             # ... and/or falls back on its own (session timer) in the middle of a run of unsupported ids
             plan["spont_drop"] = sorted(rng.sample(range(1, 180), rng.choice([1, 2, 4]))) if rng.random() < 0.5 else []
         plan["reset"] = rng.random() < 0.2
+        # ECU model dimension: the reboot happens a little AFTER the positive response to ECUReset (inside the 0.5 s the client
+        # waits before it pings the ECU again); not combined with ECUs that the all-zero probes reset behind the scanner's back
+        plan["reset_delay"] = 0.0 if plan.get("drops_out") else rng.choice([0.0, 0.0, 0.004, 0.05, 0.3])
         plan["scan_response_ids"] = rng.random() < 0.25
         # model dimension "response code": implemented services that answer every request with one fixed NRC
         # (never one of the three that mean "not supported / wrong length")
@@ -277,6 +280,7 @@ class C10(Check):
         ecu = ModelECU(plan["ecu_seed"], model, {"p_identifier": plan["p_identifier"], "p_correct_payload_format": plan["p_format"]})
         ecu.quirks = {(s_, k_): n_ for s_, k_, n_ in plan.get("quirks") or []}
         ecu.spont_drop = set(plan.get("spont_drop") or [])
+        ecu.reset_delay = plan.get("reset_delay", 0.0)
         ecu.garble = {(s_, k_): bytes.fromhex(j_) for s_, k_, j_ in plan.get("garble") or []}
         for did, k in plan.get("busy_first") or []:
             for pdu in self._id_probes(plan, did):
@@ -368,6 +372,8 @@ class C10(Check):
             bump(res["faults"], "ecu_drops_out_of_session_on_probe")
         if plan.get("skip_expr"):
             bump(res["faults"], "skip_as_range_expression")
+        if getattr(ecu, "late_resets", 0):
+            bump(res["faults"], "ecu_reboots_after_acknowledging_the_reset", ecu.late_resets)
         if getattr(ecu, "spont_fired", 0):
             bump(res["faults"], "ecu_fell_back_to_default_session_on_its_own", ecu.spont_fired)
         if plan.get("quirks"):
